@@ -145,6 +145,8 @@ func (w *World) StreamSession(name string, maxMsgs int64, ackFrac, nackFrac floa
 	}
 	process()
 	faultEnded := false
+	var earlyErr error
+	ended, halfClosed := false, false
 	// ack / nack part of it on the stream
 	var acks, nacks []string
 	var pids []string
@@ -211,12 +213,41 @@ func (w *World) StreamSession(name string, maxMsgs int64, ackFrac, nackFrac floa
 			seam.C.SetFault(&seam.Fault{Actor: faultActor, K: 1 + w.R.Intn(6), Mode: seam.FaultError})
 		}
 		fs.Push(req)
+		// a client that is done: it half-closes right behind its last request. The
+		// call then ends with OK, and an OK covers what was sent before the close
+		if faultActor == "" && w.StreamAckFaultPct > 0 && w.R.Intn(3) == 0 {
+			fs.CloseSend()
+			rig.Quiesce()
+			select {
+			case earlyErr = <-done:
+				ended = true
+				halfClosed = true
+				w.stat("stream_half_closed_behind_the_last_request", 1)
+			default:
+				// the handler has not returned although its input ended: it will when
+				// the stream is cancelled below
+			}
+		}
 		rig.Quiesce()
 		if faultActor != "" {
 			faultHit = seam.C.FaultHits() > 0
 			seam.C.SetFault(nil)
 		}
 		ahi := w.now()
+		if halfClosed && earlyErr != nil {
+			// ended with an error: nothing was confirmed
+			for _, ids := range [][]string{acks, nacks, extIDs} {
+				for _, id := range ids {
+					if d := w.ByAck[id]; d != nil && d.State == Out {
+						d.Wild = true
+					}
+				}
+			}
+			acks, nacks, extIDs = nil, nil, nil
+		}
+		if halfClosed {
+			idleCheck = false
+		}
 		if faultHit {
 			w.stat("stream_requests_under_a_storage_fault", 1)
 		}
@@ -275,10 +306,13 @@ func (w *World) StreamSession(name string, maxMsgs int64, ackFrac, nackFrac floa
 		process()
 	}
 	fs.Cancel()
-	err := <-done
+	err := earlyErr
+	if !ended {
+		err = <-done
+	}
 	rig.Quiesce()
 	w.rec("stream", fmt.Sprintf("%s max=%d acks=%d nacks=%d", name, maxMsgs, len(acks), len(nacks)), fmt.Sprintf("%s sent=%d selfExit=%v err=%v", code(err), total, selfExit, err))
-	if selfExit && !s.Wild && !faultEnded {
+	if selfExit && !s.Wild && !faultEnded && !halfClosed {
 		w.violate("C01", "stream-ended-by-server", "stream on live subscription %s#%d was ended by the server: %v", name, s.Gen, err)
 	}
 	w.stat("stream_sessions", 1)
